@@ -314,16 +314,16 @@ def judge_output(text: str, name: str, jobs: list[tuple], source_ast: list | Non
             rejected.append(i)
     res["rejected_jobs"] = rejected
     res["undecided"] = undecided
-    # signature of the recorded "failed merge" (KF-S2neq): an event type occurs more often in
-    # the diagram than in any input job, and paths end in detach
+    # signature of the recorded "failed merge" (KF-S2neq): the event that should join the
+    # branches is copied into them, i.e. an event type occurs more often in the diagram than in
+    # any input job (mostly with the copies ending in detach)
     from collections import Counter
     maxc: Counter = Counter()
     for job in jobs:
         for k, v in Counter(lab for lab, _ in job).items():
             maxc[k] = max(maxc[k], v)
     dc = Counter(info["names"])
-    res["failed_merge_signature"] = bool(
-        any(dc[k] > maxc.get(k, 0) for k in dc) and "detach" in text)
+    res["failed_merge_signature"] = bool(any(dc[k] > maxc.get(k, 0) for k in dc))
     res["out_normal_form"] = repr(puml.normal_form(ast))
     if source_ast is not None and check_extra and not info["bcnt"]:
         if puml.normal_form(ast) == puml.normal_form(source_ast):
